@@ -34,6 +34,10 @@ def run(ctx, report):
     report.section("SAMI", sami_writer, ctx, report, ev)
     report.section("emission", emission_rules, ctx, report)
     report.section("merge keys", merge_keys, ctx, report)
+    from . import writer_doc_fold
+    report.section("written documents", writer_doc_fold.run, ctx, report, ("cues", "times", "grammar"),
+                   {"cues": "1", "times": "1", "grammar": "1"},
+                   {"cues": "R-DOC-CUES", "times": "R-DOC-TIMES", "grammar": "R-DOC-GRAMMAR"})
     report.not_decided += [
         "SAMI: whether a blank sync is needed beyond the structural test (truthiness of last_time makes an end "
         "at 0 ms special - value dependent)", "how WebVTT splits a caption by layout",
@@ -492,8 +496,11 @@ def _eq_pairs(test):
 def merge_keys(ctx, report):
     """merging happens only behind an equality test of BOTH start and end of
     two captions (direct attribute reads, no formatting in between)"""
-    for path, q in (("pycaption/srt.py", "SRTWriter._recreate_lang"),
-                    ("pycaption/base.py", "merge_concurrent_captions")):
+    from . import merge_fold
+    merge_fold.run(ctx, report, clause="5", only=("R-RUNS",), rename={"R-RUNS": (
+        "R-MERGE-KEY", "only captions that FOLLOW each other with the same (start, end) are merged "
+                       "(merge_concurrent_captions folded on every sequence of timespans)")})
+    for path, q in (("pycaption/srt.py", "SRTWriter._recreate_lang"),):
         top = ctx.index.get_function(path, q)
         tests = []
         for fn in closure(ctx.index, top):
